@@ -52,6 +52,9 @@ Inductive case :=
         (impl0 impl1 : cobs) (impl2 : option cobs) (impl3 : cobs)
 | CBulk (c : crawl) (K limit : nat) (keys : list N) (impl : oobs)
 | CSingle (c : crawl) (K limit : nat) (key : N) (impl : oobs)
+| CBulkSwap (old new : crawl) (K limit : nat) (keys : list N) (impl : oobs)
+            (* a bulk operation started on the table of [old]; a crawl that found [new] (often nobody)
+               was swapped in while the operation stood at one of its log statements *)
 | CChunk (n : nat) (chunk : Z) (impl : option (list nat)).
 
 (* ---- small executable helpers ------------------------------------------ *)
@@ -270,6 +273,10 @@ Definition verdict (c : case) : nat :=
   | CSwap old new key K limit i0 i1 i2 i3 => swap_verdict old new key K limit i0 i1 i2 i3
   | CBulk c K limit keys impl => bulk_verdict c K limit keys impl
   | CSingle c K limit key impl => single_verdict c K limit key impl
+  | CBulkSwap old new K limit keys impl =>
+      (* the operation reads the table several times and may see either crawl at each read; the
+         property's clause is judged alone: an error or success, never a panic or a hang *)
+      match impl with OOPanic | OOHang => 5 | _ => 0 end
   | CChunk n chunk impl => chunk_verdict n chunk impl
   end.
 
